@@ -15,5 +15,6 @@ INVARIANT LawNormalAllowed
 INVARIANT LawNormalKeepsPoints
 INVARIANT LawStrictOnlyMulti
 INVARIANT LawLooseOnlyPoly
-PROPERTY Terminates
+INVARIANT NeverStuck
+PROPERTY RankDecreases
 CHECK_DEADLOCK FALSE
